@@ -490,6 +490,27 @@ macro_rules! cast_suite {
                 o.ok((0..3).all(|e| same(&fields(&back[e]), &mk(e))), "from_array_array", "values", || json!({}));
                 let back: [T; 3] = cast::from_component_array(comps);
                 o.ok((0..3).all(|e| same(&fields(&back[e]), &mk(e))), "from_component_array", "values", || json!({}));
+                // fixed-size arrays cannot be handed back, so a component count that does not fit is a panic: one component
+                // too many or too few for the requested number of colours (floor and ceiling of the quotient), and a
+                // mismatched output length of the opposite direction
+                {
+                    let probe = |f: &dyn Fn()| catch_unwind(AssertUnwindSafe(f)).is_err();
+                    let long: [C; 3 * $n + 1] = core::array::from_fn(|i| <C as Comp>::sent(i));
+                    let short: [C; 3 * $n - 1] = core::array::from_fn(|i| <C as Comp>::sent(i));
+                    let r1 = probe(&|| { let _ = cast::from_component_array::<T, { 3 * $n + 1 }, 3>(long); });
+                    let r2 = $n == 1 || probe(&|| { let _ = cast::from_component_array::<T, { 3 * $n + 1 }, 4>(long); });
+                    let r3 = probe(&|| { let _ = cast::from_component_array::<T, { 3 * $n - 1 }, 3>(short); });
+                    let r4 = $n == 1 || probe(&|| { let _ = cast::from_component_array::<T, { 3 * $n - 1 }, 2>(short); }); // (one-component colours: every count fits)
+                    let r5 = probe(&|| { let _ = cast::from_component_array::<T, { 3 * $n }, 2>(comps); });
+                    o.ok(r1 && r2 && r3 && r4 && r5, "from_component_array", "non_multiple_or_mismatched_length_accepted", || json!({"panicked": {"3N+1->3": r1, "3N+1->4": r2, "3N-1->3": r3, "3N-1->2": r4, "3N->2": r5}}));
+                    let r6 = probe(&|| { let _ = cast::into_component_array::<T, 3, { 3 * $n + 1 }>(ts.clone()); });
+                    let r7 = probe(&|| { let _ = cast::into_component_array::<T, 3, { 3 * $n - 1 }>(ts.clone()); });
+                    o.ok(r6 && r7, "into_component_array", "mismatched_length_accepted", || json!({"panicked": {"3->3N+1": r6, "3->3N-1": r7}}));
+                    let r8 = probe(&|| { let _: [T; 3] = <[T; 3]>::from_components(long); });
+                    let r9 = probe(&|| { let _: [T; 3] = long.components_into(); });
+                    let r10 = $n == 1 || probe(&|| { let _: [T; 2] = short.components_into(); });
+                    o.ok(r8 && r9 && r10, "FromComponents/ComponentsInto [C;K]", "non_multiple_accepted", || json!({"panicked": {"from_components 3N+1": r8, "components_into 3N+1": r9, "components_into 3N-1->2": r10}}));
+                }
                 // traits on arrays
                 let a2: [[C; N]; 3] = ts.clone().into_arrays();
                 o.ok((0..3).all(|e| same(&a2[e], &mk(e))), "IntoArrays for [T;M]", "values", || json!({}));
@@ -527,21 +548,27 @@ macro_rules! uint_suite {
         let tyname: &'static str = $name;
         if selected(ctx, tyname, "uint", if core::mem::size_of::<$U>() <= 4 { "small" } else { "large" }) {
             type T = $T;
-            type U = $U;
-            let ctor: fn(U) -> T = $ctor;
-            let get: fn(&T) -> U = $get;
+            // U is whatever the type declares as its integer form; D is the documented one (the component type itself).
+            // The suite is written against U so that it still builds if a declaration changes; the difference is reported.
+            type U = <T as palette::cast::UintCast>::Uint;
+            type D = $U;
+            let ctor: fn(D) -> T = $ctor;
+            let get: fn(&T) -> D = $get;
             let mut o = Obs { m: mon, ty: tyname, family: "uint", lean: ctx.mode != "native" && ctx.mode != "native-dev", seen: Vec::new() };
             o.m.count("types");
             let s = |i: usize| -> U { <U as Comp>::sent(i * 7 + 3) };
-            let t = ctor(s(1));
+            let sd = |i: usize| -> D { <D as Comp>::sent(i * 7 + 3) };
+            o.ok(std::any::TypeId::of::<U>() == std::any::TypeId::of::<D>() && core::mem::size_of::<U>() == core::mem::size_of::<T>(), "UintCast::Uint", "uint_type_is_not_the_documented_integer", || json!({"declared": std::any::type_name::<U>(), "documented": std::any::type_name::<D>()}));
+            let panicked = catch_unwind(AssertUnwindSafe(|| {
+            let t = ctor(sd(1));
             o.ok(cast::into_uint(t.clone()) == s(1), "into_uint", "value", || json!({}));
-            o.ok(get(&cast::from_uint::<T>(s(2))) == s(2), "from_uint", "value", || json!({}));
+            o.ok(get(&cast::from_uint::<T>(s(2))).key() == s(2).key(), "from_uint", "value", || json!({}));
             let r: &U = cast::into_uint_ref(&t);
             o.ok(addr(r) == addr(&t) && *r == s(1), "into_uint_ref", "same_memory", || json!({}));
             let u = s(3);
             let r: &T = cast::from_uint_ref(&u);
-            o.ok(addr(r) == addr(&u) && get(r) == u, "from_uint_ref", "same_memory", || json!({}));
-            let mut tm = ctor(s(4));
+            o.ok(addr(r) == addr(&u) && get(r).key() == u.key(), "from_uint_ref", "same_memory", || json!({}));
+            let mut tm = ctor(sd(4));
             let p = addr(&tm);
             {
                 let r: &mut U = cast::into_uint_mut(&mut tm);
@@ -549,19 +576,19 @@ macro_rules! uint_suite {
                 *r = s(5);
                 o.ok(okk, "into_uint_mut", "same_memory", || json!({}));
             }
-            o.ok(get(&tm) == s(5), "into_uint_mut", "write_through", || json!({}));
+            o.ok(get(&tm).key() == s(5).key(), "into_uint_mut", "write_through", || json!({}));
             let mut um = s(6);
             let p = addr(&um);
             {
                 let r: &mut T = cast::from_uint_mut(&mut um);
                 o.ok(addr(r) == p, "from_uint_mut", "same_memory", || json!({}));
             }
-            let arr = cast::into_uint_array([ctor(s(0)), ctor(s(1)), ctor(s(2))]);
+            let arr = cast::into_uint_array([ctor(sd(0)), ctor(sd(1)), ctor(sd(2))]);
             o.ok(arr == [s(0), s(1), s(2)], "into_uint_array", "values", || json!({}));
             let back: [T; 3] = cast::from_uint_array(arr);
-            o.ok((0..3).all(|i| get(&back[i]) == s(i)), "from_uint_array", "values", || json!({}));
+            o.ok((0..3).all(|i| get(&back[i]).key() == s(i).key()), "from_uint_array", "values", || json!({}));
             for n in 0..=3usize {
-                let mut ts: Vec<T> = (0..n).map(|i| ctor(s(i))).collect();
+                let mut ts: Vec<T> = (0..n).map(|i| ctor(sd(i))).collect();
                 let mut us: Vec<U> = (0..n).map(|i| s(i)).collect();
                 let p = ts.as_ptr() as usize;
                 let q = us.as_ptr() as usize;
@@ -569,7 +596,7 @@ macro_rules! uint_suite {
                 let r = cast::into_uint_slice(&ts[..]);
                 o.ok(r.as_ptr() as usize == p && r.len() == n && r == &us[..], "into_uint_slice", "same_memory_len", &cell);
                 let r: &[T] = cast::from_uint_slice(&us[..]);
-                o.ok(r.as_ptr() as usize == q && r.len() == n && r.iter().enumerate().all(|(i, t)| get(t) == s(i)), "from_uint_slice", "same_memory_len", &cell);
+                o.ok(r.as_ptr() as usize == q && r.len() == n && r.iter().enumerate().all(|(i, t)| get(t).key() == s(i).key()), "from_uint_slice", "same_memory_len", &cell);
                 let r: &[U] = ts[..].as_uints();
                 o.ok(r.as_ptr() as usize == p && r.len() == n, "AsUints for [T]", "same_memory_len", &cell);
                 let r: &[T] = us[..].uints_as();
@@ -603,7 +630,7 @@ macro_rules! uint_suite {
                 let tb: Box<[T]> = <Box<[T]>>::from_uints(ub);
                 let ub: Box<[U]> = <Box<[U]>>::uints_from(tb);
                 let tb: Box<[T]> = ub.uints_into();
-                o.ok(tb.len() == n && tb.iter().enumerate().all(|(i, t)| get(t) == s(i)), "Box<[T]> uint trait chain", "values", &cell);
+                o.ok(tb.len() == n && tb.iter().enumerate().all(|(i, t)| get(t).key() == s(i).key()), "Box<[T]> uint trait chain", "values", &cell);
                 // vectors with spare capacity
                 for extra in 0..=2usize {
                     let mut tv: Vec<T> = Vec::with_capacity(n + extra);
@@ -614,13 +641,17 @@ macro_rules! uint_suite {
                     uv.push(s(n));
                     let (p, cap) = (uv.as_ptr() as usize, uv.capacity());
                     let tv: Vec<T> = cast::from_uint_vec(uv);
-                    o.ok(tv.as_ptr() as usize == p && tv.len() == n + 1 && tv.capacity() == cap && tv.iter().enumerate().all(|(i, t)| get(t) == s(i)), "from_uint_vec", "same_memory_len_cap", || json!({"cell": [n, extra]}));
+                    o.ok(tv.as_ptr() as usize == p && tv.len() == n + 1 && tv.capacity() == cap && tv.iter().enumerate().all(|(i, t)| get(t).key() == s(i).key()), "from_uint_vec", "same_memory_len_cap", || json!({"cell": [n, extra]}));
                     let uv: Vec<U> = tv.into_uints();
                     let tv: Vec<T> = <Vec<T>>::from_uints(uv);
                     let uv: Vec<U> = <Vec<U>>::uints_from(tv);
                     let tv: Vec<T> = uv.uints_into();
                     o.ok(tv.len() == n + 1, "Vec<T> uint trait chain", "len", || json!({"cell": [n, extra]}));
                 }
+            }
+            }));
+            if panicked.is_err() {
+                o.ok(false, "uint casts", "cast_panicked", || json!({"declared": std::any::type_name::<U>(), "documented": std::any::type_name::<D>()}));
             }
         }
         }
